@@ -185,6 +185,23 @@ sk_dial(nng_socket s, const char *durl)
 	vf_harness_fail("dial %s: %s", durl, nng_strerror(rv));
 }
 
+// diagnostics for a link that does not come (back) up
+static void
+dump_sock_stats(nng_socket s)
+{
+	nng_stat       *st = NULL;
+	const nng_stat *ss;
+	if (nng_stats_get(&st) != 0) {
+		return;
+	}
+	if ((ss = nng_stat_find_socket(st, s)) != NULL) {
+		fflush(stdout);
+		nng_stats_dump(ss);
+		fflush(stdout);
+	}
+	nng_stats_free(st);
+}
+
 static uint16_t
 url_port(const char *durl)
 {
@@ -1976,6 +1993,7 @@ rawrep_case(long idx, vf_rng *r)
 				close(fd);
 				int hs = 0;
 				if ((fd = vf_tcp_accept(lfd, 10000)) < 0 || (hs = vf_sp_handshake(fd, fm->rep_proto, &peer, 5000)) != 0) {
+					dump_sock_stats(back);
 					vf_violation("C13/service-lost-after-malformed", "%s: after a malformed reply disconnected the raw peer, the device's dialer did not come back within 10 s (%s; back socket pipes: %d added, %d removed)", ctx, fd < 0 ? "no new connection" : hs == -1 ? "SP header write failed" : hs == -2 ? "no SP header from the dialer within 5 s" : "bad SP header", atomic_load(&pcb->adds), atomic_load(&pcb->rems));
 					if (fd >= 0) {
 						close(fd);
@@ -1984,6 +2002,12 @@ rawrep_case(long idx, vf_rng *r)
 					break;
 				}
 				vf_stat("raw_disconnects_observed", 1);
+				for (int w = 0; w < 10000 && atomic_load(&pcb->n) < 1; w++) {
+					vf_msleep(1);
+				}
+				if (atomic_load(&pcb->n) < 1) {
+					dump_sock_stats(back);
+				}
 				pc_wait(pcb, 1, "rawrep: device back again");
 				resend = true;
 				continue;
@@ -2036,6 +2060,11 @@ rawrep_case(long idx, vf_rng *r)
 		if (route_ok) {
 			size_t hl = (size_t) (e - 1) * 4, bl = f.len - (size_t) e * 4;
 			if (rv != 0) {
+				uint8_t tmp[FRAME_MAX + 64];
+				long    pr = peer_recv(fd, tmp, sizeof(tmp), 50);
+				printf("DIAG reply-lost: i=%d words=%d P=%08x conn=%s back pipes +%d -%d front pipes +%d -%d\n", i, e, P, pr == -2 ? "closed-by-device" : pr == -1 ? "open-idle" : "open-data", atomic_load(&pcb->adds), atomic_load(&pcb->rems), atomic_load(&pcf->adds), atomic_load(&pcf->rems));
+				dump_sock_stats(back);
+				dump_sock_stats(front);
 				vf_violation("C13/reply-lost", "%s: a well-formed reply with %d words (first = the requester's routing word) was not delivered: %s", ctx, e, nng_strerror(rv));
 			} else if (nng_msg_header_len(g) != hl || memcmp(nng_msg_header(g), f.buf + 4, hl) != 0 || nng_msg_len(g) != bl || memcmp(nng_msg_body(g), f.buf + (size_t) e * 4, bl) != 0) {
 				vf_violation("C13/backtrace-unwind", "%s: reply with %d words: the requester got header %zu / body %zu bytes, expected %zu / %zu with the first word popped", ctx, e, nng_msg_header_len(g), nng_msg_len(g), hl, bl);
